@@ -5,8 +5,9 @@ Pipeline (see notes/C20.md):
   1. TLC, abstract level: QLogFileProps (statement's sentences as invariants over
      all histories; emits the edge relation of the abstract reader per log).
   2. TLC, algorithm level: QLogFileAlgMC (qlogfile.go's byte arithmetic with scaled
-     constants) REFINES the abstract reader; negative control (lines as long as
-     the limit => refinement fails) and the empty file (known finding).
+     constants, the 0-byte file included) REFINES the abstract reader; negative
+     controls that must fail: lines as long as the limit, and the code without
+     the empty-file guard of commit ecfd163.
   3. Direction A1: every log of the abstract universe is rendered with real line
      lengths (tiny / ~8 KiB / 16 KiB-1); the Go harness puts the real qLogFile /
      qLogReader into every abstract state and performs every action; every
@@ -139,6 +140,7 @@ def ops_case(cid, desc):
     if level == "reader2":
         r = rng.random()
         k = 0 if r < 0.03 else n if r < 0.06 else rng.randint(0, n)
+        k = {"empty_old": 0, "empty_cur": n}.get(desc.get("split"), k)
         parts = [(0, k), (k, n)]
     else:
         parts = [(0, n)]
@@ -418,7 +420,10 @@ def tlc_models_start(ctx, res):
 
     def small():
         res["neg"] = ctx.tlc("QLogFileAlgMC", "QLogFileAlgMC.neg.cfg", workers=1, timeout=300, expect_violation=True)
-        res["empty"] = ctx.tlc("QLogFileAlgMC", "QLogFileAlgMC.empty.cfg", workers=1, timeout=300, expect_violation=True)
+        # the file of 0 bytes alone: a positive configuration (it is also part of quick/thorough)
+        res["empty"] = ctx.tlc("QLogFileAlgMC", "QLogFileAlgMC.empty.cfg", workers=1, timeout=300)
+        # negative control: without the empty-file guard (the code before ecfd163) Refines must fail
+        res["noguard"] = ctx.tlc("QLogFileAlgMC", "QLogFileAlgMC.noguard.cfg", workers=1, timeout=300, expect_violation=True)
         res["live"] = ctx.tlc("QLogFileAlgMC", "QLogFileAlgMC.live.cfg", workers=2, timeout=900)
 
     ex = cf.ThreadPoolExecutor(max_workers=3)
@@ -471,7 +476,7 @@ def vacuity(res):
     def n(snip, nth=0):
         return c.get(("QLogFileAlg", line_of("QLogFileAlg", snip, nth)), 0)
     for what, snip in (("SeekStart", "/\\ position' = IF Size - 1 < 0"), ("ReadNext eof", 'THEN /\\ out\' = Reply("read", 0, "eof", 0)'),
-                       ("ReadNext line", "/\\ bufferStart' = r.bs"), ("SeekTSBegin", "/\\ sLast' = -1 /\\ sDepth' = 0")):
+                       ("ReadNext line", "/\\ bufferStart' = r.bs"), ("SeekTSBegin", "/\\ sLast' = -1")):
         if n(snip) == 0:
             problems.append("algorithm action %s never taken" % what)
     chain = [n("IF r.ioerr THEN"), n("ELSE IF r.lineIdx = sLast /\\ r.lineIdx = 0"), n("ELSE IF r.lineIdx = sLast THEN"),
@@ -484,8 +489,10 @@ def vacuity(res):
             problems.append("Probe outcome %s never taken" % what)
     if res["neg"]["violated"] is None:
         problems.append("negative control (lines as long as MaxEntry) did not violate the refinement")
-    if res["empty"]["violated"] is None:
-        problems.append("empty-file configuration did not violate the refinement")
+    if res["noguard"]["violated"] is None:
+        problems.append("negative control (EmptyGuard = FALSE) did not violate the refinement")
+    if n('/\\ out\' = Reply("seek", t, "tooEarly", 0)') == 0:
+        problems.append("empty-file guard of SeekTSBegin never taken")
     return problems, taken
 
 
@@ -515,7 +522,12 @@ def run_binding(ctx, rng, tier, res, edge_vecs, layouts, mc_futs):
     rng.shuffle(forced)
     pool = [l for l in layouts if len(l) >= 1]
     picked = forced[: n_ops // 5]
-    picked = picked + [rng.choice(pool) for _ in range(n_ops - len(picked) - 1)] + [[]]
+    picked = picked + [rng.choice(pool) for _ in range(n_ops - len(picked) - 4)]
+    # ordinary cases with empty files: the 0-byte file alone (file level => algorithm level too,
+    # and reader level), and two-file readers whose rotated / current file is empty
+    special = {len(picked): ("file", None), len(picked) + 1: ("reader1", None),
+               len(picked) + 2: ("reader2", "empty_old"), len(picked) + 3: ("reader2", "empty_cur")}
+    picked = picked + [[], [], rng.choice(pool), rng.choice(pool)]
     descs = []
     for i, l in enumerate(picked):
         units = sum(x + 1 for x in l)
@@ -523,7 +535,14 @@ def run_binding(ctx, rng, tier, res, edge_vecs, layouts, mc_futs):
         mode = "buf" if (units >= 8 and r < 0.8) or r < 0.45 else ("probe" if r < 0.85 else "tiny")
         r = rng.random()
         level = "file" if r < 0.6 else ("reader1" if r < 0.7 else "reader2")
-        descs.append({"lens": l, "mode": mode, "level": level, "seed": ctx.seed * 7919 + i, "tier": tier})
+        d = {"lens": l, "mode": mode, "level": level, "seed": ctx.seed * 7919 + i, "tier": tier}
+        if i in special:
+            d["level"] = special[i][0]
+            if not l:
+                d["mode"] = "tiny"      # (mode buf would pad the file up to its size target)
+            if special[i][1]:
+                d["split"] = special[i][1]
+        descs.append(d)
     ocases = [ops_case(100000 + i, d) for i, d in enumerate(descs)]
 
     allc = wcases + ocases
@@ -631,7 +650,11 @@ def run_binding(ctx, rng, tier, res, edge_vecs, layouts, mc_futs):
 
     # ---- the trace specs can say no: corrupt one record of the smallest clean case each
     demo = {}
-    clean = [cid for cid in alg_tr if cid not in bad_abs and cid not in bad_alg and len(alg_tr[cid]) > 3]
+    clean = [cid for cid in alg_tr if cid not in bad_abs and cid not in bad_alg
+             and any(r["k"] == "seek" and r["res"] == "ok" for r in abs_tr[cid])
+             and any(r["k"] == "reads" and r["n"] > 0 for r in alg_tr[cid])]
+    if not clean and not bad_abs and not bad_alg:
+        raise vlib.Inconclusive("no clean single-file case to corrupt for the binding demonstration")
     if clean:
         cid = min(clean, key=lambda c: steps_of(alg_tr[c]))
         import copy
@@ -730,6 +753,8 @@ def run_binding(ctx, rng, tier, res, edge_vecs, layouts, mc_futs):
         "op_calls": calls_ops, "op_seeks": seeks_ops,
         "file_bytes_min_median_max": [sizes[0], sizes[len(sizes) // 2], sizes[-1]],
         "files_above_buffer": sum(1 for s in sizes if s > BUFSIZE),
+        "op_cases_with_empty_file": sum(1 for c in ocases if has_empty_file(c)),
+        "op_cases_alg_level_empty_file": sum(1 for c in ocases if c["level"] == "file" and has_empty_file(c) and c["id"] in alg_tr),
         "trace_records_abstract": nrec_abs, "trace_records_algorithm": nrec_alg,
         "trace_steps_abstract": st_abs, "trace_steps_algorithm": st_alg,
         "op_records_rejected": ops_bad, "op_records_rejected_known": ops_known,
@@ -737,7 +762,8 @@ def run_binding(ctx, rng, tier, res, edge_vecs, layouts, mc_futs):
         "hangs_first_pass": len(hangs), "notes": ctx.notes[:10],
         "refinement": {"cfg": res["ref"]["cfg"], "generated": res["ref"]["generated"], "distinct": res["ref"]["distinct"]},
         "probe_outcomes_taken_in_mc": taken, "binding_demo": demo,
-        "negative_control_violated": res["neg"]["violated"], "empty_file_cfg_violated": res["empty"]["violated"],
+        "negative_control_violated": res["neg"]["violated"], "empty_file_cfg_ok": res["empty"]["ok"],
+        "noguard_control_violated": res["noguard"]["violated"],
         "exhaustive": False,
         "samples": samples,
     }
